@@ -30,8 +30,10 @@ func (q *persistentPriorityQueue[T]) Add(data T, priority int, configs ...JobCon
 	}
 
 	if ok := q.internalQueue.Enqueue(val, priority); !ok {
+		vhook("add.enq", j, false)
 		return false
 	}
+	vhook("add.enq", j, true)
 
 	q.w.Metrics().incSubmitted()
 	q.w.notifyToPullNextJobs()
